@@ -16,3 +16,13 @@ Example C04_run_never_emptied_nonvacuous :
   let p' := run p [Add 2 500 5000000000000 1 1; Remove 2 499 1 1; Remove 1 1 1 1] in
   0 < p_S p /\ p_S p' = MINIMUM_LIQUIDITY /\ lp_of p' 1 = 0 /\ lp_of p' 2 = 0.
 Proof. vm_compute. repeat split. Qed.
+
+(** The same for BOTH pools of the two-pair world (the pair and the trusted pair that receives its fee slices as no-fee
+    swaps): no history of the world empties either. *)
+Theorem C04_world_run_never_emptied : forall ops w, WorldInv w -> 0 < p_S (w_p w) -> 0 < p_S (w_q w) ->
+  (MINIMUM_LIQUIDITY <= p_S (w_p (wrun w ops)) /\ 0 < p_r1 (w_p (wrun w ops)) /\ 0 < p_r2 (w_p (wrun w ops)) /\
+   MINIMUM_LIQUIDITY <= lp_of (w_p (wrun w ops)) SELF) /\
+  (MINIMUM_LIQUIDITY <= p_S (w_q (wrun w ops)) /\ 0 < p_r1 (w_q (wrun w ops)) /\ 0 < p_r2 (w_q (wrun w ops)) /\
+   MINIMUM_LIQUIDITY <= lp_of (w_q (wrun w ops)) SELF).
+Proof. exact wrun_never_emptied. Qed.
+Print Assumptions C04_world_run_never_emptied.
